@@ -1,4 +1,6 @@
 import MlModel.Lemmas.TreeReserved
+import MlModel.Lemmas.TreeNdDeep
+import MlModel.Lemmas.TreeTup
 /-!
 # C18 — tree views obey get/set laws and never mutate the viewed data
 
@@ -405,20 +407,237 @@ theorem C18_nd_copy_fresh (strict : Bool) {h : Heap} {t v : Ref} {k : PKey} {res
   refine ⟨h1, h3, ?_⟩
   have := setPath_extends strict h t (k :: rest) v; rw [hs] at this; exact this
 
-/- FULL STATEMENT (not proved; the `_partial` theorems below are its instance "ONE key below the array, int
-value"): for every path `p ++ q` where `p` reads (by reference) an ndarray `A` and `q = k₁ … kₘ` are in-range
-indices into it (m ≤ ndim), and every value `v` that numpy can broadcast to the shape of `A[k₁]…[kₘ]`:
-the in-place set writes exactly the window of that item in `A`'s buffer (nothing else in the heap), the
-copying set returns a tree whose array at `p` is new, on a new buffer equal to `A`'s elements with exactly that
-window overwritten, `getV` of `p ++ q` afterwards shows the broadcast of `v`, and `getV` of every path that
-leaves `p ++ q` shows what it showed before.  Missing: the induction over the levels `m ≥ 2` (each level writes
-the child copy back into the parent window: `splice` composed with `slice`) and `length (bcast s t xs) = prod t`. -/
+/-! ### paths of ANY depth into an array, values of any kind (work package C18D)
+
+`ndWin shape ks = some (o, s)`: the chain of integer keys `ks = k₁ … kₘ` (each in range for its axis, negative
+indices from the end, `Index(i)` or plain int) addresses, in a C-contiguous array of shape `shape`, the item
+`A[k₁]…[kₘ]` — the window of `prod s` elements at relative offset `o`, of shape `s` (numpy basic indexing).
+`coerce h v s = some ys`: numpy converts the value `v` (an int, an ndarray — also a view of the very buffer written —,
+a nested list / tuple of ints) and broadcasts it to the window's shape, giving the elements `ys`.
+`NdWF h`: every array object shows a window inside an existing buffer.
+
+The two theorems are the former `…_exact_partial` (ONE key, int value; kept below as `…_exact_one`) for every depth
+`m ≥ 1` and every value: proved by induction over the levels (`Lemmas/TreeNdDeep.lean`), with
+`length (bcast s t xs) = prod t` (`bcast_length`) and the composition of nested windows (`splice_splice_slice`). -/
+
+/-- **`set(..., in_place=True)` through a path of any depth into an ndarray writes exactly the addressed window**:
+the call succeeds and returns the same array object; the buffer afterwards is the buffer before with the window of
+the item (`prod s` elements from `off + o`) overwritten by the broadcast value; every other pre-existing cell — every
+other object, the array object itself — is unchanged (the views each level creates are new cells). -/
+theorem C18_nd_inplace_exact (strict : Bool) {h : Heap} {t v b off : Nat} {shape : List Nat} {ks : Path}
+    {xs : List Int} {o : Nat} {s : List Nat} {ys : List Int} (w : NdWF h) (hn : h[t]? = some (.nd b off shape))
+    (hb : h[b]? = some (.buf xs)) (hks : ks ≠ []) (hw : ndWin shape ks = some (o, s))
+    (hco : coerce h v s = some ys) :
+    (setPath strict true h t ks v).2 = .ok t ∧
+    (setPath strict true h t ks v).1[b]? = some (.buf (splice xs (off + o) ys)) ∧
+    (∀ c, c < h.size → c ≠ b → (setPath strict true h t ks v).1[c]? = h[c]?) ∧
+    ys.length = prod s ∧ off + o + prod s ≤ xs.length := by
+  obtain ⟨xs', hb', hin⟩ := w t b off shape hn
+  rw [hb] at hb'; cases hb'
+  have hlen := coerce_length w hco
+  obtain ⟨h', hs, h1, h2, _⟩ := setPath_nd_inplace_deep strict v ks shape h t b off xs o s ys hks hn hb hin hw
+    (coerce_stable w hco) hlen
+  rw [hs]
+  have := ndWin_bound ks shape o s hw
+  exact ⟨rfl, h1, h2, hlen, by omega⟩
+
+/-- **`copy_and_set` through a path of any depth into an ndarray**: the result is a new array object (cell
+`h.size + 1`) of the same shape on a new buffer (cell `h.size`) that holds the elements of the original with exactly
+the addressed window overwritten by the broadcast value; the heap is only extended (the original array, its buffer,
+every view of it are untouched — the copies the deeper levels make are garbage cells). -/
+theorem C18_nd_copy_exact (strict : Bool) {h : Heap} {t v b off : Nat} {shape : List Nat} {ks : Path}
+    {o : Nat} {s : List Nat} {ys : List Int} (w : NdWF h) (hn : h[t]? = some (.nd b off shape))
+    (hks : ks ≠ []) (hw : ndWin shape ks = some (o, s)) (hco : coerce h v s = some ys) :
+    (copyAndSet strict h t (.path ks) v).2 = .ok (h.size + 1) ∧
+    (copyAndSet strict h t (.path ks) v).1[h.size + 1]? = some (.nd h.size 0 shape) ∧
+    (copyAndSet strict h t (.path ks) v).1[h.size]? = some (.buf (splice (ndElems h b off shape) o ys)) ∧
+    Extends h (copyAndSet strict h t (.path ks) v).1 ∧
+    ys.length = prod s ∧ o + prod s ≤ prod shape := by
+  have hext := C18_no_mutation_copy_and_set strict h t (.path ks) v
+  rw [copyAndSet_path] at hext ⊢
+  have hlen := coerce_length w hco
+  obtain ⟨h', hs, h1, h2⟩ := setPath_nd_copy_deep strict v ks shape h t b off o s ys hks hn (w.elems_length hn) hw
+    (coerce_stable w hco) hlen
+  rw [hs] at hext ⊢
+  exact ⟨rfl, h1, h2, hext, hlen, ndWin_bound ks shape o s hw⟩
+
+/-- **Get after set, by value, at any depth**: reading the same path back from the array a copying set returned
+gives a view of the NEW buffer whose elements are the broadcast value — or, when the path addresses one element, the
+numpy scalar of that value. -/
+theorem C18_nd_get_set_deep (strict : Bool) {h : Heap} {t v b off : Nat} {shape : List Nat} {ks : Path}
+    {o : Nat} {s : List Nat} {ys : List Int} {h' : Heap} (w : NdWF h) (hn : h[t]? = some (.nd b off shape))
+    (hks : ks ≠ []) (hw : ndWin shape ks = some (o, s)) (hco : coerce h v s = some ys)
+    (hs : (copyAndSet strict h t (.path ks) v).1 = h') :
+    (s ≠ [] → getV h' (h.size + 1) ks = .ok (.view h.size o s, true) ∧ ndElems h' h.size o s = ys) ∧
+    (s = [] → ∃ y, ys = [y] ∧ getV h' (h.size + 1) ks = .ok (.scalar y, true)) := by
+  obtain ⟨_, h1, h2, _, hlen, hbd⟩ := C18_nd_copy_exact strict w hn hks hw hco
+  rw [hs] at h1 h2
+  have hE : (slice (bufOf h b) off (prod shape)).length = prod shape := w.elems_length hn
+  have hgv : getV h' (h.size + 1) ks = ndWalk h' h.size 0 shape ks := by
+    cases ks with
+    | nil => exact absurd rfl hks
+    | cons k ks' =>
+      obtain ⟨n, inner, i, j, o', rfl, hi, _, _, _⟩ := ndWin_cons_inv hw
+      rw [getV.eq_4 _ _ _ _ (fun e => asInt_ne_self hi e) (fun id v e => by subst e; cases hi), h1]
+  rw [hgv, ndWalk_of_ndWin h' h.size ks shape 0 o s hw, Nat.zero_add]
+  constructor
+  · intro hne
+    rw [if_neg (fun hh => hne hh.1)]
+    refine ⟨rfl, ?_⟩
+    simp only [ndElems, bufOf_of_get h2]
+    rw [← hlen]; exact slice_splice _ _ _ (by omega)
+  · intro he
+    subst he
+    have h1' : ys.length = 1 := hlen
+    obtain ⟨y, rfl⟩ : ∃ y, ys = [y] := by
+      match ys, h1' with
+      | [y], _ => exact ⟨y, rfl⟩
+    refine ⟨y, rfl, ?_⟩
+    rw [if_pos ⟨rfl, hks⟩, bufOf_of_get h2, getD_splice_of_slice (by
+      have hb1 : o + 1 ≤ prod shape := hbd
+      rw [show (ndElems h b off shape).length = prod shape from hE]; exact hb1)]
+
+/-- **Frame inside the array, at any depth**: every other item of the array whose window is disjoint from the
+written one (`ks'` any chain of in-range integer keys, e.g. one that leaves `ks` at some axis) shows, in the array
+the copying set returned, exactly the elements it shows in the original. -/
+theorem C18_nd_frame_deep (strict : Bool) {h : Heap} {t v b off : Nat} {shape : List Nat} {ks ks' : Path}
+    {o o' : Nat} {s s' : List Nat} {ys : List Int} {h' : Heap} (w : NdWF h) (hn : h[t]? = some (.nd b off shape))
+    (hks : ks ≠ []) (hw : ndWin shape ks = some (o, s)) (hco : coerce h v s = some ys)
+    (hw' : ndWin shape ks' = some (o', s')) (hd : o' + prod s' ≤ o ∨ o + prod s ≤ o')
+    (hs : (copyAndSet strict h t (.path ks) v).1 = h') :
+    ndElems h' h.size o' s' = ndElems h b (off + o') s' := by
+  obtain ⟨_, _, h2, _, hlen, hbd⟩ := C18_nd_copy_exact strict w hn hks hw hco
+  rw [hs] at h2
+  have hE : (slice (bufOf h b) off (prod shape)).length = prod shape := w.elems_length hn
+  have hbd' := ndWin_bound ks' shape o' s' hw'
+  simp only [ndElems, bufOf_of_get h2]
+  rw [slice_splice_disjoint _ _ (by omega) (by omega)]
+  exact slice_slice _ hbd'
+
+/-- **In place, at any depth: read-back and frame in the caller's own buffer** — after the in-place set the addressed
+window shows the broadcast value, every disjoint window of the same buffer (items of this array, or of any other
+array object that shares the buffer) shows what it showed before. -/
+theorem C18_nd_inplace_get_set_frame (strict : Bool) {h : Heap} {t v b off : Nat} {shape : List Nat} {ks : Path}
+    {xs : List Int} {o : Nat} {s : List Nat} {ys : List Int} {h' : Heap} (w : NdWF h)
+    (hn : h[t]? = some (.nd b off shape)) (hb : h[b]? = some (.buf xs)) (hks : ks ≠ [])
+    (hw : ndWin shape ks = some (o, s)) (hco : coerce h v s = some ys)
+    (hs : (setPath strict true h t ks v).1 = h') :
+    ndElems h' b (off + o) s = ys ∧
+    ∀ o' L', o' + L' ≤ off + o ∨ off + o + prod s ≤ o' → slice (bufOf h' b) o' L' = slice xs o' L' := by
+  obtain ⟨_, h1, _, hlen, hbd⟩ := C18_nd_inplace_exact strict w hn hb hks hw hco
+  rw [hs] at h1
+  constructor
+  · simp only [ndElems, bufOf_of_get h1]
+    rw [← hlen]; exact slice_splice _ _ _ (by omega)
+  · intro o' L' hd
+    rw [bufOf_of_get h1]
+    exact slice_splice_disjoint _ _ (by omega) (by omega)
+
+/-! ### C18_tuple_key — a tuple of ints as a path element (numpy multi-dimensional index; work package C18D)
+
+`Key('a', (i, j))`: on an ndarray `a[(i, j)]` is `a[i, j]`, ONE indexing step resolving several axes.  `Model/Tree.lean`
+models it as `XKey.tup` on top of the unchanged key types (`getVX`, `setPathX`, `tupWin`).  Not modelled (the harness
+keeps it out of the correspondence, oracle only): STORING a tuple as a dict key. -/
+
+/-- **On tuple-free paths the model with tuple keys is the model every other theorem of this file is about.** -/
+theorem C18_tuple_key_model (strict inPlace : Bool) (h : Heap) (t v : Ref) (p : Path) :
+    setPathX strict inPlace h t (p.map XKey.k) v = setPath strict inPlace h t p v ∧
+    getVX h t (p.map XKey.k) = getV h t p :=
+  ⟨setPathX_plain strict inPlace v p h t, getVX_plain h p t⟩
+
+/-- **`a[(i, j, …)]` addresses the element / sub-block that the chain `a[i][j]…` addresses** — same offset, same
+shape, and it is rejected (numpy: `IndexError`) exactly when some index of the chain is. -/
+theorem C18_tuple_key_window (shape : List Nat) (is : List Int) :
+    tupWin shape is = ndWin shape (is.map PKey.int) := tupWin_eq_ndWin is shape
+
+/-- **A read through a tuple key is the read through the chain of ints.** -/
+theorem C18_tuple_key_read {h : Heap} {t b off : Nat} {shape : List Nat} {is : List Int} {o : Nat} {s : List Nat}
+    (hn : h[t]? = some (.nd b off shape)) (his : is ≠ []) (hw : tupWin shape is = some (o, s)) :
+    getVX h t [.tup is] = getV h t (is.map PKey.int) := by
+  have hw' := hw
+  rw [tupWin_eq_ndWin] at hw'
+  cases is with
+  | nil => exact absurd rfl his
+  | cons i is' =>
+    cases shape with
+    | nil => simp [tupWin] at hw
+    | cons n inner =>
+      have hv : getV h t ((i :: is').map PKey.int) = ndWalk h b off (n :: inner) ((i :: is').map PKey.int) := by
+        rw [List.map_cons, getV.eq_4 _ _ _ _ (by intro e; cases e) (by intro id v e; cases e), hn]
+      rw [hv, ndWalk_of_ndWin h b _ _ off o s hw']
+      simp only [getVX, hn, ndWalkX, hw]
+      cases s with
+      | nil => simp [scalarWalkX]
+      | cons m s' => simp
+
+/-- **A copying set through a tuple key returns the array the set through the chain of ints returns**: a new array
+object (cell `h.size + 1`) on a new buffer (cell `h.size`), both cells the same in the two resulting heaps — the elements
+of the original with the window overwritten by the broadcast value; the heap is only extended.  (The two heaps differ
+in garbage: the chain copies a view per level, the tuple key resolves the axes at once.) -/
+theorem C18_tuple_key_set_copy (strict : Bool) {h : Heap} {t v b off : Nat} {shape : List Nat} {is : List Int}
+    {o : Nat} {s : List Nat} {ys : List Int} (w : NdWF h) (hn : h[t]? = some (.nd b off shape)) (his : is ≠ [])
+    (hw : tupWin shape is = some (o, s)) (hco : coerce h v s = some ys) :
+    (setPathX strict false h t [.tup is] v).2 = .ok (h.size + 1) ∧
+    (setPath strict false h t (is.map PKey.int) v).2 = .ok (h.size + 1) ∧
+    (setPathX strict false h t [.tup is] v).1[h.size + 1]? = (setPath strict false h t (is.map PKey.int) v).1[h.size + 1]? ∧
+    (setPathX strict false h t [.tup is] v).1[h.size]? = (setPath strict false h t (is.map PKey.int) v).1[h.size]? ∧
+    (setPathX strict false h t [.tup is] v).1[h.size]? = some (.buf (splice (ndElems h b off shape) o ys)) ∧
+    Extends h (setPathX strict false h t [.tup is] v).1 := by
+  have hw' := hw
+  rw [tupWin_eq_ndWin] at hw'
+  have hks : is.map PKey.int ≠ [] := by cases is with | nil => exact absurd rfl his | cons _ _ => simp
+  obtain ⟨c1, c2, c3, _, _, _⟩ := C18_nd_copy_exact strict w hn hks hw' hco
+  rw [copyAndSet_path] at c1 c2 c3
+  cases shape with
+  | nil => cases is with | nil => exact absurd rfl his | cons _ _ => simp [tupWin] at hw
+  | cons n inner =>
+    rw [setPathX_tup_copy strict hn hw (coerce_stable w hco)]
+    have hsz : (ndCopy h b off (n :: inner)).1.size = h.size + 2 := by rw [ndCopy_fst]; simp
+    have hbuf : (ndCopy h b off (n :: inner)).1[h.size]? = some (.buf (ndElems h b off (n :: inner))) := by
+      rw [ndCopy_fst, push_get_lt _ _ (by simp)]; exact push_get_size _ _
+    have hnd : (ndCopy h b off (n :: inner)).1[h.size + 1]? = some (.nd h.size 0 (n :: inner)) := by
+      rw [ndCopy_fst]
+      have := push_get_size (h.push (.buf (ndElems h b off (n :: inner)))) (.nd h.size 0 (n :: inner))
+      simpa using this
+    have hB : (ndWrite (ndItem (ndCopy h b off (n :: inner)).1 h.size o s).1 h.size o ys)[h.size]? =
+        some (.buf (splice (ndElems h b off (n :: inner)) o ys)) :=
+      ndWrite_get_eq (by rw [ndItem_get_lt _ _ _ _ (by omega)]; exact hbuf) _ _
+    refine ⟨rfl, c1, ?_, ?_, hB, ?_⟩
+    · rw [c2]; simp only
+      rw [ndWrite_get_ne' _ _ _ _ (by omega), ndItem_get_lt _ _ _ _ (by omega), hnd]
+    · rw [c3]; exact hB
+    · exact Extends.ndWrite_fresh ((ndCopy_extends h b off (n :: inner)).trans (ndItem_extends _ _ _ s)) _ _ (Nat.le_refl _)
+
+/-- **… and so does the in-place set**: the same array object, the caller's buffer with exactly the addressed window
+overwritten, every other pre-existing cell unchanged — as the set through the chain of ints. -/
+theorem C18_tuple_key_set_inplace (strict : Bool) {h : Heap} {t v b off : Nat} {shape : List Nat} {is : List Int}
+    {xs : List Int} {o : Nat} {s : List Nat} {ys : List Int} (w : NdWF h) (hn : h[t]? = some (.nd b off shape))
+    (hb : h[b]? = some (.buf xs)) (his : is ≠ []) (hw : tupWin shape is = some (o, s))
+    (hco : coerce h v s = some ys) :
+    (setPathX strict true h t [.tup is] v).2 = .ok t ∧ (setPath strict true h t (is.map PKey.int) v).2 = .ok t ∧
+    (setPathX strict true h t [.tup is] v).1[b]? = some (.buf (splice xs (off + o) ys)) ∧
+    (setPath strict true h t (is.map PKey.int) v).1[b]? = some (.buf (splice xs (off + o) ys)) ∧
+    ∀ c, c < h.size → c ≠ b → (setPathX strict true h t [.tup is] v).1[c]? = h[c]? ∧
+      (setPath strict true h t (is.map PKey.int) v).1[c]? = h[c]? := by
+  have hw' := hw
+  rw [tupWin_eq_ndWin] at hw'
+  have hks : is.map PKey.int ≠ [] := by cases is with | nil => exact absurd rfl his | cons _ _ => simp
+  obtain ⟨c1, c2, c3, _, _⟩ := C18_nd_inplace_exact strict w hn hb hks hw' hco
+  have hblt := lt_size_of_get hb
+  cases shape with
+  | nil => cases is with | nil => exact absurd rfl his | cons _ _ => simp [tupWin] at hw
+  | cons n inner =>
+    rw [setPathX_tup_inplace strict hn hw (coerce_stable w hco)]
+    refine ⟨rfl, c1, ?_, c2, fun c hc hne => ⟨?_, c3 c hc hne⟩⟩
+    · exact ndWrite_get_eq (by rw [ndItem_get_lt _ _ _ _ hblt]; exact hb) _ _
+    · simp only
+      rw [ndWrite_get_ne' _ _ _ _ hne, ndItem_get_lt _ _ _ _ hc]
 
 /-- **`set(..., in_place=True)` of one item of an ndarray writes exactly the addressed item**: the call
 succeeds and returns the same array object; the buffer afterwards is the buffer before with the window of
 item `j` (`prod inner` elements from `off + j * prod inner`) overwritten by the value; every other
 pre-existing cell — every other object, and the array object itself — is unchanged. -/
-theorem C18_nd_inplace_exact_partial (strict : Bool) {h : Heap} {t v b off n : Nat} {inner : List Nat} {k : PKey}
+theorem C18_nd_inplace_exact_one (strict : Bool) {h : Heap} {t v b off n : Nat} {inner : List Nat} {k : PKey}
     {i : Int} {j : Nat} {x : Int} {xs : List Int} (hn : h[t]? = some (.nd b off (n :: inner)))
     (hb : h[b]? = some (.buf xs)) (hv : h[v]? = some (.leaf (.int x))) (hk : k.isPlain)
     (hi : k.asInt = some i) (hj : resolveIdx n i = some j) :
@@ -441,7 +660,7 @@ theorem C18_nd_inplace_exact_partial (strict : Bool) {h : Heap} {t v b off n : N
 same shape on a new buffer (cell `h.size`) that holds the elements of the original with exactly the window
 of item `j` overwritten by the value; the heap is only extended (the original array, its buffer and every
 view of it are untouched). -/
-theorem C18_nd_copy_exact_partial (strict : Bool) {h : Heap} {t v b off n : Nat} {inner : List Nat} {k : PKey}
+theorem C18_nd_copy_exact_one (strict : Bool) {h : Heap} {t v b off n : Nat} {inner : List Nat} {k : PKey}
     {i : Int} {j : Nat} {x : Int} (hn : h[t]? = some (.nd b off (n :: inner)))
     (hv : h[v]? = some (.leaf (.int x))) (hk : k.isPlain) (hi : k.asInt = some i) (hj : resolveIdx n i = some j) :
     (copyAndSet strict h t (.path [k]) v).2 = .ok (h.size + 1) ∧
@@ -471,7 +690,7 @@ theorem C18_nd_copy_exact_partial (strict : Bool) {h : Heap} {t v b off n : Nat}
 
 /-- **Get after set, by value, for an item of an ndarray**: in a buffer that holds the window of item `j`
 (`o + len ≤ size`), the elements read back from that window after it was overwritten by `ys` are `ys`
-— with `C18_nd_inplace_exact_partial` / `C18_nd_copy_exact_partial`: `arr[k]` read after the set shows the value set
+— with `C18_nd_inplace_exact_one` / `C18_nd_copy_exact_one`: `arr[k]` read after the set shows the value set
 (broadcast to the item's shape); and the elements outside the window are the old ones (the two `splice`
 formulas), which is the frame law inside the array. -/
 theorem C18_nd_get_set (xs : List Int) (o : Nat) (ys : List Int) (hb : o + ys.length ≤ xs.length) :
@@ -742,11 +961,45 @@ example : pathCells hA 3 [.str "a", .idx 1, .idx 2] = [3, 1, 0] := rfl
 /-- `key == len(arr)`: AssertionError; a row assigned from a view of the same buffer -/
 example : (copyAndSet false hA 3 (.path [.str "a", .idx 2]) 4).2 = .error .assertion := rfl
 example : (copyAndSet false hA 1 (.path [.idx 0]) 2).1[5]? = some (.buf [3, 4, 5, 3, 4, 5]) := rfl
-/-- hypotheses of `C18_nd_inplace_exact_partial` / `C18_nd_copy_exact_partial` / `C18_nd_get_set` on `A[1] = 7` -/
+/-- hypotheses of `C18_nd_inplace_exact_one` / `C18_nd_copy_exact_one` / `C18_nd_get_set` on `A[1] = 7` -/
 example : hA[1]? = some (.nd 0 0 [2, 3]) ∧ hA[0]? = some (.buf [0, 1, 2, 3, 4, 5]) ∧ hA[4]? = some (.leaf (.int 7)) ∧
     (PKey.idx 1).isPlain = true ∧ (PKey.idx 1).asInt = some 1 ∧ resolveIdx 2 1 = some 1 := by decide
 example : (0 + 1 * prod [3]) + (List.replicate (prod [3]) (7 : Int)).length ≤ [0, 1, 2, 3, 4, (5 : Int)].length := by decide
 example : (copyAndSet false hA 1 (.path [.idx 1]) 4).1[5]? = some (.buf [0, 1, 2, 7, 7, 7]) := rfl
+
+/-- hypotheses of `C18_nd_inplace_exact` / `C18_nd_copy_exact` / `C18_nd_get_set_deep` / `C18_nd_frame_deep`:
+depth 2 into the 2-D array `A`, int value -/
+example : NdWF hA := ndWFB_sound (by decide)
+example : ndWin [2, 3] [.idx 1, .idx (-1)] = some (5, []) := by decide
+example : coerce hA 4 [] = some [7] := by decide
+example : ndWin [2, 3] [.idx 0] = some (0, [3]) ∧ (0 + prod [3] ≤ 5 ∨ 5 + prod [] ≤ 0) := by decide
+
+/-- a 3-D array `B = arange(12).reshape(2, 3, 2)` (cell 1, buffer cell 0), the list `[7, 8]` (cell 4), the view
+`B[1]` (cell 5) of the same buffer, the 2-D array `[[7], [8], [9]]` (cell 7, broadcast along the last axis) -/
+private def hB : Heap :=
+  #[.buf [0, 1, 2, 3, 4, 5, 6, 7, 8, 9, 10, 11], .nd 0 0 [2, 3, 2], .leaf (.int 7), .leaf (.int 8), .list [2, 3],
+    .nd 0 6 [3, 2], .buf [7, 8, 9], .nd 6 0 [3, 1]]
+
+example : NdWF hB := ndWFB_sound (by decide)
+/-- depth 2, LIST value: `B[1][2] = [7, 8]`; depth 3, int; depth 1, a VIEW of the same buffer: `B[0] = B[1]`;
+depth 1, an array BROADCAST to the block: `B[-1] = [[7], [8], [9]]` -/
+example : ndWin [2, 3, 2] [.idx 1, .int 2] = some (10, [2]) := by decide
+example : coerce hB 4 [2] = some [7, 8] := by decide
+example : ndWin [2, 3, 2] [.idx 1, .int 2, .idx (-1)] = some (11, []) := by decide
+example : ndWin [2, 3, 2] [.idx 0] = some (0, [3, 2]) ∧ coerce hB 5 [3, 2] = some [6, 7, 8, 9, 10, 11] := by decide
+example : ndWin [2, 3, 2] [.idx (-1)] = some (6, [3, 2]) ∧ coerce hB 7 [3, 2] = some [7, 7, 8, 8, 9, 9] := by decide
+example : (copyAndSet false hB 1 (.path [.idx 1, .int 2]) 4).1[8]? = some (.buf [0, 1, 2, 3, 4, 5, 6, 7, 8, 9, 7, 8]) := by
+  decide
+example : (setPath false true hB 1 [.idx 0] 5).1[0]? = some (.buf [6, 7, 8, 9, 10, 11, 6, 7, 8, 9, 10, 11]) := by decide
+example : getV (copyAndSet false hB 1 (.path [.idx 1, .int 2]) 4).1 9 [.idx 1, .int 2] = .ok (.view 8 10 [2], true) := rfl
+
+/-- tuple keys on `B`: `B[(1, 2)] = [7, 8]` and the read `B[(1, 2, -1)]`; an index out of range and too many indices -/
+example : tupWin [2, 3, 2] [1, 2] = some (10, [2]) ∧ tupWin [2, 3, 2] [1, 3] = none ∧ tupWin [2, 3, 2] [1, 2, 0, 0] = none := by
+  decide
+example : (setPathX false false hB 1 [.tup [1, 2]] 4).1[8]? = some (.buf [0, 1, 2, 3, 4, 5, 6, 7, 8, 9, 7, 8]) := by decide
+example : getVX hB 1 [.tup [1, 2, -1]] = .ok (.scalar 11, true) := rfl
+example : getVX hB 1 [.tup [1], .k (.idx 2)] = .ok (.view 0 10 [2], true) := rfl
+example : (setPathX false false hB 1 [.tup [1, 3]] 4).2 = .error .key := rfl
 
 /-- `[{'a': 1, 'b': 2}, 1]` at cell 3 (the leaf `1` is shared), a value `9` at cell 4, a tuple at cell 5. -/
 private def h0 : Heap :=
